@@ -5,6 +5,8 @@ module is a *visible operation*.  The objects keep the simulated network state a
 into an `owner` (the area driver) at the operations that are injection points:
 
     owner.ip(kind, c=None)              injection point *before* the operation takes effect
+    owner.vop(kind, c=None)             visible operation about to happen (fine-grained mode: a
+                                        point at which the baton may pass to another thread)
     owner.emit(event, c=0, x="")        observable event *after* the operation took effect
 
 Nothing here knows about gunicorn.
@@ -210,6 +212,9 @@ class ScriptedSelector(selectors._BaseSelectorImpl):
         self.closed = False
 
     def register(self, fileobj, events, data=None):
+        cid = getattr(fileobj, "cid", 0)
+        if cid:
+            self.net.owner.vop("reg", cid)          # visible operation (fine-grained mode)
         if self.closed:
             raise ValueError("I/O operation on closed selector")
         key = super().register(fileobj, events, data)
@@ -217,6 +222,9 @@ class ScriptedSelector(selectors._BaseSelectorImpl):
         return key
 
     def unregister(self, fileobj):
+        cid = getattr(fileobj, "cid", 0)
+        if cid:
+            self.net.owner.vop("unreg", cid)
         key = super().unregister(fileobj)
         self.net.owner.emit("unreg", getattr(fileobj, "cid", 0))
         return key
